@@ -105,18 +105,75 @@ def scratch_digest():
     return tuple(out)
 
 
+# ---- process-global state of the solver module: mutable default arguments --------------------------------------------------------------
+_DEFAULTS0 = None
+def _solver_functions():
+    import types, sys
+    mod = sys.modules['thermosteam.mixture.mixture']
+    out = []
+    for nm, obj in sorted(vars(mod).items()):
+        if isinstance(obj, types.FunctionType) and obj.__module__ == mod.__name__:
+            out.append((nm, obj))
+        elif isinstance(obj, type) and obj.__module__ == mod.__name__:
+            for k, f in sorted(vars(obj).items()):
+                if isinstance(f, types.FunctionType): out.append((f'{nm}.{k}', f))
+    return out
+
+def _mutable(x): return isinstance(x, (list, dict, set, bytearray))
+
+def record_defaults():
+    """import-time value of every default argument of thermosteam.mixture.mixture's functions that is a mutable container (a default list /
+    dict survives between calls: process-global solver state).  Recorded once, before any solve."""
+    global _DEFAULTS0
+    if _DEFAULTS0 is not None: return
+    import copy
+    fx.tmo()
+    rec = {}
+    for nm, f in _solver_functions():
+        d = f.__defaults__ or (); kd = f.__kwdefaults__ or {}
+        if any(_mutable(x) for x in d) or any(_mutable(x) for x in kd.values()):
+            rec[nm] = (copy.deepcopy(d), copy.deepcopy(kd))
+    _DEFAULTS0 = rec
+
+def reset_defaults():
+    """put those containers back to their import-time contents IN PLACE (the function keeps referring to the same object)"""
+    import copy
+    record_defaults()
+    if not _DEFAULTS0: return
+    fs = dict(_solver_functions())
+    for nm, (d0, kd0) in _DEFAULTS0.items():
+        f = fs[nm]
+        for cur, ini in list(zip(f.__defaults__ or (), d0)) + [((f.__kwdefaults__ or {}).get(k), v) for k, v in kd0.items()]:
+            if isinstance(cur, list): cur[:] = copy.deepcopy(ini)
+            elif isinstance(cur, (dict, set)): cur.clear(); cur.update(copy.deepcopy(ini))
+
+def defaults_digest():
+    if not _DEFAULTS0: return ()
+    fs = dict(_solver_functions())
+    out = []
+    for nm in sorted(_DEFAULTS0):
+        f = fs[nm]
+        vals = [x for x in (f.__defaults__ or ()) if _mutable(x)] + [x for x in (f.__kwdefaults__ or {}).values() if _mutable(x)]
+        out.append((nm, repr([[fx.r12(v) if isinstance(v, float) else v for v in x] if isinstance(x, list) else x for x in vals])))
+    return tuple(out)
+
 _warmed = False
 def _warm():
     """evaluate every property model once in the master process, so that lazily initialised third-party correlation data is in the same
     state in every forked worker (results must not depend on which worker evaluates a transition)"""
     global _warmed
     if _warmed: return
+    record_defaults()
     _thermo()
     for kind in ('l', 'g', 'm'):
         for T in (260., 350., 490.):
-            s = mk_template(kind, T, 101325., (1., 1., 1.))
-            s.H, s.S, s.C
-            s.H = s.H + 10.; s.S = s.S
+            try:
+                s = mk_template(kind, T, 101325., (1., 1., 1.))
+                s.H, s.S, s.C
+                s.H = s.H + 10.; s.S = s.S
+            except Exception:
+                pass        # warming must never decide anything: a library exception here is met again, and classified, inside a step
+    reset_defaults()
     _warmed = True
 
 # ---- building real streams -------------------------------------------------------------------------------------------------
@@ -152,10 +209,17 @@ def mk_template(kind, T, P, comp):
 
 class Snap:
     """concrete thermodynamic state of a stream: phase -> dense flows (package order), T, P"""
-    __slots__ = ('flows', 'T', 'P', 'cls')
+    __slots__ = ('flows', 'T', 'P', 'cls', 'chems')
     def __init__(self, s):
         self.flows = {p: a.copy() for p, a in fx.dense(s).items()}
         self.T = float(s.T); self.P = float(s.P); self.cls = type(s).__name__
+        self.chems = s.chemicals.tuple           # the stream's own package (inlets may be defined on another package than the receiver)
+    @property
+    def molA(self):
+        """total flows per chemical in the order of PKG_A (matched by CAS)"""
+        tot = self.mol
+        by = {c.CAS: float(x) for c, x in zip(self.chems, tot)}
+        return np.array([by.get(c.CAS, 0.) for c in _thermo().chemicals.tuple])
     @property
     def total(self): return float(sum(a.sum() for a in self.flows.values()))
     @property
@@ -172,7 +236,7 @@ def H_ref(sn, T=None):
         mix = _thermo().mixture
         with clean_scratch():
             return float(sum(mix.H(p, a, T, sn.P) for p, a in sn.flows.items() if a.any()))
-    chems = _thermo().chemicals.tuple
+    chems = sn.chems
     return float(sum(n * chems[i].H(p, T, sn.P) for p, a in sn.flows.items() for i, n in enumerate(a) if n))
 
 def C_ref(sn, T=None):
@@ -181,7 +245,7 @@ def C_ref(sn, T=None):
         mix = _thermo().mixture
         with clean_scratch():
             return float(sum(mix.Cn(p, a, T, sn.P) for p, a in sn.flows.items() if a.any()))
-    chems = _thermo().chemicals.tuple
+    chems = sn.chems
     return float(sum(n * chems[i].Cn(p, T) for p, a in sn.flows.items() for i, n in enumerate(a) if n))
 
 def twin(sn, T=None):
@@ -232,6 +296,8 @@ def check_mix(receiver, inlets, Q, match_extra=None):
     # classifying fields: the branch of Stream.mix_from (0 / 1 / >=2 non-empty inlets), whether heat is added, whether the receiver is
     # itself an inlet.  Receiver kind, phases, pressures ... go to `detail`.
     m = dict(n_nonempty=min(len(nonempty), 2), Q_nonzero=bool(Q != 0.), self_inlet=any(i is receiver for i in inlets))
+    if any(b.chems is not _thermo().chemicals.tuple and tuple(c.ID for c in b.chems) != tuple(c.ID for c in _thermo().chemicals.tuple) for b in nonempty):
+        m['cross_package'] = True
     info = dict(recv=rc0, phases=''.join(sorted(set(''.join(b.phases_present()) for b in nonempty))))
     if match_extra: info.update(match_extra)
     try:
@@ -255,6 +321,9 @@ def check_mix(receiver, inlets, Q, match_extra=None):
         raise Violation('H-balance', f'H_out - (sum H_in + Q) = {H_out - expected:.6g} kJ/hr (tol {tol:.3g}); H_out={H_out:.9g}, sum H_in={sum(H_in):.9g}, Q={Q}; '
                         f'T_out={after.T:.6f}', match=m, residual=abs(H_out - expected),
                         detail=dict(inlets=[b.jsonable() for b in before], Q=Q, after=after.jsonable(), H_in=H_in, H_out=H_out, **info))
+    if len(nonempty) == 1 and Q == 0. and after.cls == 'Stream' and nonempty[0].cls == 'Stream' and after.phases_present() != nonempty[0].phases_present():
+        raise Violation('single-inlet-phase', f'one non-empty inlet in phase {nonempty[0].phases_present()}: receiver ended in {after.phases_present()} '
+                        f'(T={after.T}, P={after.P})', match=m, detail=dict(inlets=[b.jsonable() for b in before], after=after.jsonable(), **info))
     Pmin = min(b.P for b in nonempty)
     if after.P != Pmin:
         raise Violation('P-min', f'P_out={after.P} but the lowest pressure among the non-empty inlets is {Pmin}', match=m,
@@ -262,9 +331,9 @@ def check_mix(receiver, inlets, Q, match_extra=None):
     read = float(receiver.H)
     if not (abs(read - H_out) <= 1e-9 * max(abs(H_out), abs(C_out) * 1.) + 1e-9):
         raise Violation('H-read-vs-state', f'receiver.H reads {read:.9g} but the enthalpy of its state is {H_out:.9g}', match=m, residual=abs(read - H_out))
-    mol_in = sum(b.mol for b in nonempty)
-    if not np.allclose(after.mol, mol_in, rtol=1e-12, atol=0):
-        raise Violation('flows', f'receiver flows {after.mol.tolist()} != summed inlets {mol_in.tolist()}', match=m)
+    mol_in = sum(b.molA for b in nonempty)
+    if not np.allclose(after.molA, mol_in, rtol=1e-12, atol=0):
+        raise Violation('flows', f'receiver flows {after.molA.tolist()} != summed inlets {mol_in.tolist()}', match=m)
     solved = len(nonempty) >= 2 and (len({b.T for b in nonempty}) > 1 or Q != 0.)
     return ('mix', len(nonempty), after.cls, after.phases_present(), bool(solved or (Q != 0.)), _bucket(after.T))
 
@@ -427,7 +496,7 @@ class MixGrid(System):
         self._acts = {}
 
     def warm(self): _warm()
-    def reset_globals(self): fx.reset_globals(_thermo())
+    def reset_globals(self): fx.reset_globals(_thermo()); reset_defaults()
     def depth(self, tier): return 1
 
     # an inlet is (tpl index, P index, comp index)
@@ -474,6 +543,19 @@ class MixGrid(System):
                             for i3 in inl_m:
                                 for q in range(nQ): pts.add((rk, ex, (i1, i2, i3), q))
             kdev3 = 3
+        # cross-package inlets (first inlet on PKG_B): n = 1 full product over the 7 single-phase templates x 4 P x the 3 compositions that
+        # have Water or Ethanol, and n = 2 with a PKG_A second inlet (quick: 18-inlet core menu; thorough: the 24-inlet menu, every PKG_B first inlet)
+        XC = [0, 1, 5]
+        inl_b = [(t, p_, c, 'B') for t in range(nT) for p_ in range(nP) for c in XC]
+        second = inl_core if tier == 'quick' else list(itertools.product([1, 3, 5, 6], CORE_P, CORE_COMP))     # thorough: the 24-inlet menu
+        firstb = [(t, p_, c, 'B') for t in CORE_TPL for p_ in CORE_P for c in XC] if tier == 'quick' else inl_b
+        for rk in range(3):
+            for ex in (0, 1):
+                for i1 in inl_b:
+                    for q in range(nQ): pts.add((rk, ex, (i1,), q))
+                for i1 in firstb:
+                    for i2 in second:
+                        for q in (CORE_Q if tier == 'quick' else range(nQ)): pts.add((rk, ex, (i1, i2), q))
         # n = 3: fixed base points (not rotated by the seed), so that quick (<= 2 deviations) is a subset of thorough (<= 3 deviations)
         # whatever seeds the two tiers are run with; the n = 2 bases may rotate because thorough holds the full n = 2 product
         bases3 = [(0, 0, 1, 1, 1, 3, 2, 0, 5, 0, 2, 1), (2, 1, 4, 3, 3, 0, 1, 5, 2, 2, 1, 2),
@@ -510,6 +592,12 @@ class MixGrid(System):
 
     @staticmethod
     def _inlet(i):
+        if len(i) > 3:         # inlet defined on PKG_B = (Ethanol, Water): another package, other chemical order, no Methanol
+            t, p, c = i[:3]
+            ph, T = TEMPLATES_X[t]
+            w, e, _ = COMPS[c]
+            kw = {k: v for k, v in (('Water', w), ('Ethanol', e)) if v}
+            return fx.tmo().Stream(None, thermo=fx.thermo('B'), phase=ph, T=T, P=PRESSURES[p], **kw)
         t, p, c = i
         ph, T = TEMPLATES_X[t]
         if ph == 'm': return mk_multi(T, PRESSURES[p], COMPS[c], COMPS[c][::-1])
@@ -546,7 +634,7 @@ class SepGrid(System):
     TG = [380., 420., 480.]
 
     def warm(self): _warm()
-    def reset_globals(self): fx.reset_globals(_thermo())
+    def reset_globals(self): fx.reset_globals(_thermo()); reset_defaults()
     def depth(self, tier): return 1
 
     def configs(self, tier, seed):
@@ -612,7 +700,7 @@ class SetterGrid(System):
     name = 'c02.setter'
 
     def warm(self): _warm()
-    def reset_globals(self): fx.reset_globals(_thermo())
+    def reset_globals(self): fx.reset_globals(_thermo()); reset_defaults()
     def depth(self, tier): return 1
 
     def configs(self, tier, seed):
@@ -669,7 +757,7 @@ class History(System):
         self.rich = rich        # rich: full action alphabet; otherwise a reduced alphabet explored one level deeper
 
     def warm(self): _warm(); _thermo(self.pkg)
-    def reset_globals(self): fx.reset_globals(_thermo(self.pkg))
+    def reset_globals(self): fx.reset_globals(_thermo(self.pkg)); reset_defaults()
     def depth(self, tier): return self._dq if tier == 'quick' else self._dt
     def time_cap(self, tier): return 400 if tier == 'quick' else 1200
 
@@ -691,8 +779,13 @@ class History(System):
         ka, kb = config[0], config[1]
         T0 = {'l': 298.15, 'g': 420., 'm': 345.}
         if self.pkg == 'ideal':
-            a = mk_template(ka, T0[ka], 101325., (1., 2.5, 0.375))
-            b = mk_template(kb, T0[kb] + (20. if ka == kb else 0.), 1e6, (0.375, 0., 1.))
+            # kind codes may carry a scale suffix: 'lB' = liquid x 1e3, 'lS' = liquid x 1e-3 (the magnitudes of DESIGN section 2): a solve on a
+            # very large stream followed by an assignment on a very small one exposes solver state that survives between calls
+            sc = {'B': 1e3, 'S': 1e-3}
+            fa, fb = sc.get(ka[1:], 1.), sc.get(kb[1:], 1.)
+            ka, kb = ka[0], kb[0]
+            a = mk_template(ka, T0[ka], 101325., tuple(fa * x for x in (1., 2.5, 0.375)))
+            b = mk_template(kb, T0[kb] + (20. if ka == kb else 0.), 1e6, tuple(fb * x for x in (0.375, 0., 1.)))
         elif ka == 'L':
             # EOS package, both streams clearly liquid (sub-cooled at their pressure): the cubic keeps its liquid root over the whole
             # range the actions can reach, so H(T) is continuous
@@ -709,7 +802,7 @@ class History(System):
 
     def canon(self, st):
         ids = {}
-        return (self.pkg,) + tuple(fx.stream_digest(x, ids) for x in st['s']) + (scratch_digest(),)
+        return (self.pkg,) + tuple(fx.stream_digest(x, ids) for x in st['s']) + (scratch_digest(), defaults_digest())
 
     def actions(self, st):
         S = st['s']
@@ -829,7 +922,7 @@ class MixVLE(System):
     MENU_C = [0, 1, 2, 4]
 
     def warm(self): _warm()
-    def reset_globals(self): fx.reset_globals(_thermo('ideal'))
+    def reset_globals(self): fx.reset_globals(_thermo('ideal')); reset_defaults()
     def depth(self, tier): return 1
 
     def configs(self, tier, seed):
@@ -897,7 +990,7 @@ class MixVLE(System):
     def outcome(self, st, a, obs): return repr(obs)
 
 
-SYSTEMS = [MixGrid(), SepGrid(), SetterGrid(), History('c02.history', 3, 3), History('c02.history.deep', 2, 4, rich=False),
+SYSTEMS = [MixGrid(), SepGrid(), SetterGrid(), History('c02.history', 3, 3), History('c02.history.deep', 2, 4, rich=False, kinds=[('l', 'l'), ('l', 'g'), ('l', 'm'), ('m', 'l'), ('g', 'g'), ('lB', 'lS'), ('gS', 'lB'), ('gB', 'gS')]),
            # configuration axis "mixture model": the same two-stream histories on a Peng-Robinson EOSMixture package, whose solver scratch
            # (`mixture._free_energy_args`, shared by every stream of the package) is real hidden state: S / H assignments on one stream are
            # interleaved with H reads, mixing, separation and H assignment on the other
